@@ -329,3 +329,132 @@ func genGenBankWrite(repo string) (string, error) {
 		})
 	})
 }
+
+// ---- GenBankFields.Slice ---------------------------------------------------------------------------------------------
+
+// The reference parser of `Slice` is read as a pair of statements:
+//
+//	P := parseReferenceInfo(E)
+//	T := func(info string) ([]gts.Ranged, bool) {
+//	    result, err := P.Parse(pars.FromString(info))
+//	    if err != nil { return nil, false }
+//	    return result.Value.([]gts.Ranged), true
+//	}
+//
+// P is the prefix E (a value), `T(x)` is `parseInfo_ P x` — the parameter: the ranges, `none` for an error.
+func gbSliceModule(repo string) *wmod {
+	m := newWmod(wLoadWorld(repo))
+	m.importFrom(gbFieldsModule(repo))
+	p := m.w.pkgs["seqio"]
+	closures := map[string]string{} // T -> P
+	m.stmtExt = func(c *wctx, list []ast.Stmt, k func(c *wctx) string) (string, bool) {
+		if len(list) < 2 {
+			return "", false
+		}
+		as, ok := list[0].(*ast.AssignStmt)
+		if !ok || as.Tok != token.DEFINE || len(as.Lhs) != 1 || len(as.Rhs) != 1 {
+			return "", false
+		}
+		call, ok := as.Rhs[0].(*ast.CallExpr)
+		if !ok || exprString(call.Fun) != "parseReferenceInfo" || len(call.Args) != 1 {
+			return "", false
+		}
+		if _, ok := p.funcs["parseReferenceInfo"]; !ok {
+			refuse("reference.go: parseReferenceInfo not found")
+		}
+		pid := as.Lhs[0].(*ast.Ident)
+		c.checkShadow(pid)
+		var pre []wbind
+		e := c.expr(call.Args[0], &pre)
+		if c.kind(e.typ) != "string" {
+			refuse("%s: parseReferenceInfo of a %s", c.at(call), e.typ)
+		}
+		bad := func() {
+			refuse("%s: `%s := parseReferenceInfo(…)` is not followed by the closure `func(info string) ([]gts.Ranged, bool) { result, err := %s.Parse(pars.FromString(info)); if err != nil { return nil, false }; return result.Value.([]gts.Ranged), true }`", c.at(as), pid.Name, pid.Name)
+		}
+		as2, ok := list[1].(*ast.AssignStmt)
+		if !ok || as2.Tok != token.DEFINE || len(as2.Lhs) != 1 || len(as2.Rhs) != 1 {
+			bad()
+		}
+		tid := as2.Lhs[0].(*ast.Ident)
+		fl, ok := as2.Rhs[0].(*ast.FuncLit)
+		if !ok || len(fl.Body.List) != 3 {
+			bad()
+		}
+		c.checkShadow(tid)
+		ft := fl.Type
+		if ft.Params == nil || len(ft.Params.List) != 1 || len(ft.Params.List[0].Names) != 1 || exprString(ft.Params.List[0].Type) != "string" ||
+			ft.Results == nil || len(ft.Results.List) != 2 || exprString(ft.Results.List[0].Type) != "[]gts.Ranged" || exprString(ft.Results.List[1].Type) != "bool" {
+			bad()
+		}
+		arg := ft.Params.List[0].Names[0].Name
+		s0, ok := fl.Body.List[0].(*ast.AssignStmt)
+		if !ok || s0.Tok != token.DEFINE || len(s0.Lhs) != 2 || len(s0.Rhs) != 1 || exprString(s0.Rhs[0]) != fmt.Sprintf("%s.Parse(pars.FromString(%s))", pid.Name, arg) {
+			bad()
+		}
+		res, er := exprString(s0.Lhs[0]), exprString(s0.Lhs[1])
+		s1, ok := fl.Body.List[1].(*ast.IfStmt)
+		if !ok || s1.Init != nil || s1.Else != nil || exprString(s1.Cond) != er+" != nil" || len(s1.Body.List) != 1 {
+			bad()
+		}
+		r1, ok := s1.Body.List[0].(*ast.ReturnStmt)
+		if !ok || len(r1.Results) != 2 || exprString(r1.Results[0]) != "nil" || exprString(r1.Results[1]) != "false" {
+			bad()
+		}
+		r2, ok := fl.Body.List[2].(*ast.ReturnStmt)
+		if !ok || len(r2.Results) != 2 || exprString(r2.Results[1]) != "true" {
+			bad()
+		}
+		ta, ok := r2.Results[0].(*ast.TypeAssertExpr)
+		if !ok || ta.Type == nil || exprString(ta.Type) != "[]gts.Ranged" || exprString(ta.X) != res+".Value" || res == "_" || er == "_" || res == er {
+			bad()
+		}
+		c.declare(pid.Name, "seqio.refParser!")
+		c.ownSet(pid.Name)
+		c.declare(tid.Name, "closure!")
+		c.ownSet(tid.Name)
+		closures[tid.Name] = pid.Name
+		return wwrap(pre, fmt.Sprintf("let %s : List UInt8 := %s;\n%s", wname(pid.Name), e.expr, c.stmts(list[2:], k))), true
+	}
+	m.callExt = func(c *wctx, n *ast.CallExpr, pre *[]wbind) (wval, bool) {
+		id, ok := n.Fun.(*ast.Ident)
+		if !ok {
+			return wval{}, false
+		}
+		v := c.vars[id.Name]
+		if v == nil || v.typ != "closure!" {
+			return wval{}, false
+		}
+		pname := closures[id.Name]
+		if pv := c.vars[pname]; pv == nil || pv.typ != "seqio.refParser!" || len(n.Args) != 1 {
+			refuse("%s: call of %s outside the subset", c.at(n), id.Name)
+		}
+		c.marks[id.Name] = true
+		c.marks[pname] = true
+		a := c.expr(n.Args[0], pre)
+		if c.kind(a.typ) != "string" {
+			refuse("%s: %s of a %s", c.at(n), id.Name, a.typ)
+		}
+		call := "(" + c.special("parseInfo_") + " " + wname(pname) + " " + a.expr + ")"
+		return wval{typ: "tuple", expr: "((" + call + ".getD []), " + call + ".isSome)", multi: []string{"[]gts.Ranged", "bool"}}, true
+	}
+	m.callee(p, "GenBankFields.Slice")
+	return m
+}
+
+func genGbSlice(repo string) (string, error) {
+	return wRun(func() string {
+		m := gbSliceModule(repo)
+		return m.render(wmodText{
+			header: "  GENERATED by go2lean (gwriter_fasta.go) from seqio/genbank.go — do not edit.\n" +
+				"  `GenBankFields.Slice` statement by statement (how the Go is read: the header comments of go2lean/gwriter.go,\n" +
+				"  gwriter_world.go and Gts/Gen/GoStrings.lean): the REGION, the loop over the references — parse the info, keep\n" +
+				"  the overlapping ranges, clip and re-base them, re-format —, the renumbering.  `parseReferenceInfo(prefix)` with\n" +
+				"  the closure around it is the parameter `parseInfo_`, `gts.LocationOverlap` on a `gts.Ranged` the parameter\n" +
+				"  `locationOverlap_`, `%d` the parameter `itoa_`.\n",
+			imports: []string{"Gts.Gen.GbFields"},
+			opens:   []string{"Gts.Gen.GbFields"},
+			ns:      "Gts.Gen.GbSlice",
+		})
+	})
+}
